@@ -1,6 +1,13 @@
 #!/bin/sh
-# builds the extracted escape model + driver; run after the Coq development is compiled
+# builds the extracted escape model + driver; run after the Coq development is compiled.
+# The model does not depend on /repo: rebuilt only when the compiled Coq model, the driver or this directory changed.
 set -e
 cd "$(dirname "$0")"
+out=../../../build/bin/c14model
+if [ -x "$out" ] && [ "$out" -nt ../../theories/Model/Esc.vo ] && [ "$out" -nt ../../theories/Lang/Conc.vo ] && \
+   [ "$out" -nt driver.ml ] && [ "$out" -nt Extract.v ] && [ "$out" -nt build.sh ]; then
+  exit 0
+fi
+mkdir -p ../../../build/bin
 coqc -Q ../../theories Argot Extract.v >/dev/null
-ocamlfind ocamlopt -w -a -O3 esc.mli esc.ml driver.ml -o ../../../build/bin/c14model 2>/dev/null || ocamlfind ocamlopt -w -a esc.mli esc.ml driver.ml -o ../../../build/bin/c14model
+ocamlfind ocamlopt -w -a -O3 esc.mli esc.ml driver.ml -o "$out" 2>/dev/null || ocamlfind ocamlopt -w -a esc.mli esc.ml driver.ml -o "$out"
